@@ -16,6 +16,12 @@ Tie (every run, on the tree under test):
   render / parse  vs csv_to_merchants_content / parse_merchants
   classify    both model classifiers vs both real pipelines (regex, upper, lower, today are shipped as oracle tables)
   H_upper / H_empty  tested on every (pattern, description) pair generated.
+  literal values: every numeric literal of the generated modifier expression, read by CPython, is the SAME DOUBLE as the CSV threshold
+              (oracle on the converter alone; spelling-agnostic — `200`, `200.0`, `2e2` pass, `12345.7` for 12345.67 does not)
+Generator classes added after the seeded-regression round: rows sharing all outputs with the previous / an earlier row (runs of
+spellings, exact duplicates) with group-structured patterns (numbered/named groups and back-references, conditional groups, leading
+inline flags); amount thresholds with 7+ significant digits and transactions on their precision probes. search() draws half of its
+cases from these classes at a higher density.
 The implementation may be the pinned converter or carry the D14a / D14b repairs: the correspondence detects
 which (`fixA`, `fixB`) and uses the matching model; the PROPERTY ORACLE below does not care.
 
@@ -32,6 +38,7 @@ import io
 import json
 import os
 import re
+import struct
 import tokenize
 import warnings
 from fractions import Fraction
@@ -182,12 +189,44 @@ def gen_desc(r):
     return d
 
 
-def gen_pattern(r, desc):
-    """A regular expression in the style people write in merchant_categories.csv; about half match `desc`."""
+def structured_forms(r, tok, other, words, hit):
+    """Patterns whose meaning depends on the GROUP STRUCTURE or on the position of the pattern inside the regular expression it is
+    compiled in: numbered / named capture groups, numbered / named back-references, conditional groups, leading inline flags.
+    All are legal in a legacy CSV (the pattern cell is handed to re.search as it is); a converter is only correct on them if every
+    row's pattern reaches `regex("…")` as a regular expression of its own."""
+    t0, t1 = tok[:1], re.escape(tok[1:2])
+    return [
+        lambda: '(' + tok + ')',
+        lambda: f'({other}|{tok})' + r'\s*(\S*)',
+        lambda: r'(\w)\1',
+        lambda: r'(\d)\1',
+        lambda: '(' + t0 + ')' + t1 + r'.*\1' if len(tok) > 1 else r'(\w)\1',
+        lambda: '(' + other + ')?' + tok + r'(\s|$)\2',
+        lambda: f'(?P<m>{tok})',
+        lambda: f'(?P<m>{other}|{tok})' + r'\b',
+        lambda: r'(?P<c>\w)(?P=c)',
+        lambda: '(?P<m>' + t0 + ')' + t1 + '.*(?P=m)' if len(tok) > 1 else r'(?P<c>\w)(?P=c)',
+        lambda: f'(?P<m>{tok})' + r'\s+(?P<n>\S+)',
+        lambda: r'(\s)?(?(1)' + tok + '|' + other + ')',
+        lambda: '(?i)' + tok.lower(),
+        lambda: '(?i)(?P<m>' + tok.lower() + ')',
+        lambda: '(?s)' + tok + '.*',
+        lambda: '(?m)^' + (words[0] if hit else tok),
+        lambda: '(?is)' + tok.lower() + r'.(\w)\1?',
+        lambda: '(?a)' + tok + r'\b',
+    ]
+
+
+def gen_pattern(r, desc, structured=False):
+    """A regular expression in the style people write in merchant_categories.csv; about half match `desc`.
+    `structured`: mostly patterns from `structured_forms` (used for rows that share their outputs with a neighbour)."""
     words = [w for w in re.split(r'[^A-Za-z0-9]+', desc.upper()) if w] or ['X']
     hit = r.random() < 0.65
     tok = r.choice(words) if hit else r.choice(G.MERCHANT_TOKENS)
     other = r.choice(G.MERCHANT_TOKENS)
+    sf = structured_forms(r, tok, other, words, hit)
+    if r.random() < (0.6 if structured else 0.1):
+        return r.choice(sf)()
     k = r.random()
     forms = [
         lambda: tok,
@@ -232,8 +271,47 @@ def gen_pattern(r, desc):
     return r.choice(forms)() if k < 0.8 else tok
 
 
-def gen_modifiers(r, amount_hint, date_hint, allow_relative=False):
-    """Returns (text, [('amount', v…) | ('date', d…)] boundary hints)."""
+# thresholds that need MORE than 6 significant digits (and more than float32 / 2 decimals hold): every one is a plain `[\d.]+`
+# literal a CSV may carry; the migrated expression has to denote the same double
+PRECISE_VALUES = ['12345.67', '100000.25', '250000.75', '1234567', '10250.75', '1000.125', '2500000.5', '123456.78', '99999.99',
+                  '1000000.01', '1234.5678', '0.1234567', '16777217', '33554433.5', '4999.995', '123456789.12', '0.000012345',
+                  '9007199254740993', '12345678901234567890', '100000000000000000000000.5', '1234.5678901234567']
+
+
+def gen_precise_value(r):
+    k = r.random()
+    if k < 0.35:
+        return r.choice(PRECISE_VALUES)
+    if k < 0.7:
+        return f'{r.randint(10000, 9999999)}.{r.randint(1, 99):02d}'
+    if k < 0.85:
+        return str(r.randint(1000001, 999999999))
+    return f'{r.randint(1, 9999)}.{r.randint(1, 99999):05d}'
+
+
+def precision_probes(v):
+    """Amounts that tell v from what v becomes when it is written with too few digits (k significant digits, k decimals, an
+    integer, a float32): the coarser value w itself and the midpoint of v and w. Empty when every such rendering is exact."""
+    cands = set()
+    for k in (3, 4, 5, 6, 7, 8, 9, 10, 12, 15):
+        cands.add(float('%.*g' % (k, v)))
+    for k in (0, 1, 2, 3):
+        cands.add(float(round(v, k)))
+    cands.add(float(int(v)))
+    try:
+        cands.add(struct.unpack('f', struct.pack('f', v))[0])
+    except OverflowError:
+        pass
+    out = []
+    for w in sorted(cands):
+        if w != v:
+            out += [w, (v + w) / 2, round((v + w) / 2, 2)]
+    return [x for x in out if x != v]
+
+
+def gen_modifiers(r, amount_hint, date_hint, allow_relative=False, precise=0.2):
+    """Returns (text, [('amount', v…) | ('date', d…)] boundary hints). `precise`: share of amount values drawn from the
+    many-significant-digits class."""
     mods, hints = '', []
     sp = lambda s: s.replace('§', r.choice(['', '', ' ']))
     vals = [0, 5, 50, 100, 100.5, 1500, 99.99, 0.01, 20.5, 300, abs(amount_hint)]
@@ -243,7 +321,16 @@ def gen_modifiers(r, amount_hint, date_hint, allow_relative=False):
         if vt.startswith('0.') and r.random() < 0.2:
             vt = vt[1:]
         op = r.choice(['>', '>=', '<', '<=', '=', '=', ':'])
-        if op == ':':
+        if r.random() < precise:
+            if op == ':':
+                lo, hi = sorted((gen_precise_value(r), gen_precise_value(r)), key=float)
+                mods += sp(f'[amount§:§{lo}§-§{hi}]')
+                hints += [('amount', float(lo)), ('amount', float(hi))]
+            else:
+                vt = gen_precise_value(r)
+                mods += sp(f'[amount§{op}§{vt}]')
+                hints.append(('amount', float(vt)))
+        elif op == ':':
             lo = r.choice([0, 10, 50, 99.99])
             hi = r.choice([100, 100.004, 500, 5000])
             mods += sp(f'[amount§:§{lo}§-§{hi}]')
@@ -281,7 +368,11 @@ def boundary_txn(r, desc, hints, base):
     mh = [h[1] for h in hints if h[0] == 'month']
     if ah and r.random() < 0.8:
         v = r.choice(ah)
-        amount = v + r.choice([0, 0, 0.004, -0.004, 0.01, -0.01, 0.0099, -0.0099, 0.011, -0.011, 1, -1, 0.005])
+        probes = precision_probes(v)
+        if probes and r.random() < 0.35:
+            amount = r.choice(probes)
+        else:
+            amount = v + r.choice([0, 0, 0.004, -0.004, 0.01, -0.01, 0.0099, -0.0099, 0.011, -0.011, 1, -1, 0.005])
     if r.random() < 0.12:
         amount = -amount
     if dh and r.random() < 0.8:
@@ -296,17 +387,27 @@ def boundary_txn(r, desc, hints, base):
 CORNER_KINDS = ['relative-first', 'relative-later', 'legacy-expression', 'empty-rule', 'untrimmed', 'tag-syntax', 'upper']
 
 
-def gen_case(r, corner=None):
-    """One CSV rule file + one transaction.  `corner` selects a pre-registered corner class (one row of that class)."""
+def gen_case(r, corner=None, focus=False):
+    """One CSV rule file + one transaction.  `corner` selects a pre-registered corner class (one row of that class).
+    Rows may SHARE their outputs (merchant, category, subcategory, tags, modifiers) with the previous row ("several spellings of one
+    merchant on consecutive rows"), with an earlier non-adjacent row, or be an exact duplicate; such rows mostly carry
+    group-structured patterns.  `focus` (used by search()) raises the share of these rows and of many-digit thresholds."""
     desc = gen_desc(r)
-    base = {'amount': r.choice([0.0, 5.0, 50.0, 100.0, 100.004, 99.99, 1500.0, 20.5, round(r.uniform(0, 600), 2)]),
+    base = {'amount': r.choice([0.0, 5.0, 50.0, 100.0, 100.004, 99.99, 1500.0, 20.5, round(r.uniform(0, 600), 2),
+                                12345.68, round(r.uniform(10000, 3000000), 2)]),
             'date': datetime.date(r.choice([2024, 2025]), r.choice([1, 2, 6, 12, r.randint(1, 12)]), r.choice([1, 15, 28, r.randint(1, 28)]))}
     n = r.choice([1, 2, 3, 3, 4, 6])
-    rows, hints = [], []
+    p_share, p_precise = (0.6, 0.6) if focus else (0.25, 0.2)
+    # which rows take their outputs from another row: share[i] = index of that row (i-1: adjacent run) or None
+    share = [None] * n
+    for i in range(1, n):
+        if r.random() < p_share:
+            share[i] = i - 1 if r.random() < 0.8 else r.randrange(i)
+    in_run = [share[i] is not None or i in share for i in range(n)]
+    rows, hints, parts = [], [], []
     for i in range(n):
-        pat = gen_pattern(r, desc)
-        mods, h = gen_modifiers(r, base['amount'], base['date'])
-        hints += h
+        pat = gen_pattern(r, desc, structured=in_run[i])
+        mods, h = gen_modifiers(r, base['amount'], base['date'], precise=p_precise)
         tag_only = r.random() < 0.22
         cat = r.choice(G.CATS)
         tags = '|'.join(r.sample(['business', 'Travel', 'x y', 'income', '{field.type}', 'RECURRING'], r.choice([0, 0, 1, 2])))
@@ -316,7 +417,15 @@ def gen_case(r, corner=None):
             tags = 'misc'
         merchant = r.choice([f'M{i} {pat[:4].strip() or "x"}', 'Uber', "Joe's Diner", 'A & B: Co', 'Shop #1', 'name]', '100%'])
         merchant = re.sub(r'[\[\]"\\]', '', merchant).strip() or f'M{i}'
-        rows.append([pat + mods, merchant, '' if tag_only else cat[0], '' if tag_only else cat[1], tags])
+        out = [merchant, '' if tag_only else cat[0], '' if tag_only else cat[1], tags]
+        if share[i] is not None:
+            j = share[i]
+            mods, h, out = parts[j][1], parts[j][2], list(parts[j][3])
+            if r.random() < 0.08:
+                pat = parts[j][0]                 # exact duplicate row
+        hints += h
+        parts.append((pat, mods, h, out))
+        rows.append([pat + mods] + out)
     if corner:
         i = r.randrange(n)
         if corner == 'relative-first':
@@ -347,7 +456,7 @@ def gen_case(r, corner=None):
     txn = boundary_txn(r, desc, hints, base)
     if r.random() < 0.25:
         txn['field'] = {'type': r.choice(['ACH', 'card', ''])}
-    return {'rows': rows, 'layout': layout, 'txn': txn, 'corner': corner}
+    return {'rows': rows, 'layout': layout, 'txn': txn, 'corner': corner, 'share': share}
 
 
 def render_csv(case):
@@ -449,6 +558,8 @@ def row_features(rule, txn):
     a = txn['amount']
     if a is not None and any(c.operator == '=' and a != c.value and abs(a - c.value) < 0.01 for c in parsed.amount_conditions):
         f.add('amount-eq')          # strictly inside the epsilon window of an [amount=v] modifier
+    if any(v is not None and float('%.6g' % v) != v for c in parsed.amount_conditions for v in (c.value, c.min_value, c.max_value)):
+        f.add('many-digit-threshold')   # an amount threshold that needs 7 or more significant digits
     if not (category or '') and not tags:
         f.add('empty-rule')
     if any((x or '') != (x or '').strip() for x in (merchant, category, subcategory)) or not (merchant or '').strip():
@@ -523,8 +634,13 @@ def oracle(case, b):
     # responsible row: first row whose per-rule truth differs, else the rows that match
     eng = obs['engine']
     resp = set()
-    if len(eng.rules) == len(rules):
-        for i, (rule, er) in enumerate(zip(rules, eng.rules)):
+    # engine rule k belongs to CSV row idx[k]: all rows, or (converter with the D14e repair) the rows that have a category or tags
+    idx = list(range(len(rules)))
+    if len(eng.rules) != len(rules):
+        idx = [i for i, rule in enumerate(rules) if (rule[2] or '') or rule[6]]
+    if len(eng.rules) == len(idx):
+        for i, er in zip(idx, eng.rules):
+            rule = rules[i]
             if legacy_rule_truth(rule, txn) != engine_rule_truth(er, txn):
                 resp |= (feats[i] or {'other'})
                 base.setdefault('rows_matching_differently', []).append(list(rule[:4]))
@@ -553,7 +669,8 @@ def single_row_content(rule, for_match_text=False):
 LABEL = {'relative-date': 'D14c.relative-date-modifier', 'legacy-expression': 'D14d.legacy-pattern-evaluates-as-expression',
          'upper': 'D14h.description-upper-not-case-equivalent', 'untrimmed': 'D14f.untrimmed-or-empty-name',
          'tag-syntax': 'D14g.tag-with-comma-or-parenthesis', 'backslash-or-quote': 'D14a.pattern-with-backslash-or-quote',
-         'amount-eq': 'D14b.amount-eq-epsilon', 'empty-rule': 'D14e.row-without-category-and-tags'}
+         'amount-eq': 'D14b.amount-eq-epsilon', 'empty-rule': 'D14e.row-without-category-and-tags',
+         'many-digit-threshold': 'other.amount-threshold-with-7-or-more-significant-digits'}     # never a known finding
 
 
 def load_label(feats):
@@ -564,7 +681,8 @@ def load_label(feats):
 
 
 def diff_label(feats, txn, rules):
-    for k in ('relative-date', 'legacy-expression', 'upper', 'untrimmed', 'tag-syntax', 'backslash-or-quote', 'amount-eq'):
+    for k in ('relative-date', 'legacy-expression', 'upper', 'untrimmed', 'tag-syntax', 'many-digit-threshold', 'backslash-or-quote',
+              'amount-eq'):
         if k in feats:
             return LABEL[k]
     return 'other.classification-differs'
@@ -672,6 +790,58 @@ def escape_stream(ctx, patterns):
     ctx.obligation('correspondence:converter-escaping-vs-Migrate.pyEscape', 'correspondence', det is not None,
                    cases=len(patterns), error=json.dumps(bad)[:600] if bad else None)
     return det
+
+
+def expected_numbers(parsed, fixB):
+    """The numbers a faithful rendering of the modifiers has to DENOTE, in order (CSV thresholds, the 0.01 window of `=`, months)."""
+    out = []
+    for c in parsed.amount_conditions:
+        if c.operator == ':':
+            out += [c.min_value, c.max_value]
+        elif c.operator == '=' and fixB:
+            out += [c.value, 0.01]
+        else:
+            out.append(c.value)
+    for c in parsed.date_conditions:
+        if c.operator == 'month':
+            out.append(float(c.month))
+    return out
+
+
+def denoted_numbers(text):
+    """The numeric literals of a generated modifier expression, as CPython reads them (None: not an expression CPython parses)."""
+    try:
+        tree = ast.parse(text, mode='eval')
+    except (SyntaxError, ValueError):
+        return None
+    nums = [(n.lineno, n.col_offset, float(n.value)) for n in ast.walk(tree)
+            if isinstance(n, ast.Constant) and type(n.value) in (int, float)]
+    return [v for _, _, v in sorted(nums)]
+
+
+def literal_value_stream(ctx, items):
+    """Oracle on the converter alone (no model): every amount threshold of the CSV rule is denoted EXACTLY (same double) by the
+    numeric literal written into the generated expression, whatever its spelling (`200`, `200.0`, `2e2` are all fine)"""
+    from tally import merchant_engine as ME
+    bad, n, many = [], 0, 0
+    seen = set()
+    for parsed, _ in items:
+        text = ME._modifier_to_expr(parsed)
+        if not text or '#' in text or text in seen:
+            continue
+        seen.add(text)
+        got = denoted_numbers(text)
+        if got is None:
+            continue
+        bits = lambda l: [common.float_bits(float(x)) for x in l]
+        exps = [expected_numbers(parsed, True), expected_numbers(parsed, False)]    # `=` written with or without the 0.01 window
+        n += 1
+        many += any(float('%.6g' % v) != v for v in exps[0])
+        if bits(got) not in [bits(e) for e in exps]:
+            bad.append({'generated_expression': text, 'denotes': got, 'csv_thresholds': exps[0]})
+    ctx.obligation('oracle:numeric-literals-of-the-generated-expression-denote-the-CSV-thresholds-exactly', 'assumption-test', not bad,
+                   cases=n, error=json.dumps(bad[0])[:600] if bad else None)
+    ctx.notes['threshold_literals_checked'] = {'distinct_modifier_expressions': n, 'with_a_threshold_of_7_or_more_significant_digits': many}
 
 
 def mods_stream(ctx, items):
@@ -944,14 +1114,50 @@ EXCLUDED_POINTS = [
 
 # ------------------------------------------------------------------------------------------------ the check
 
-def gen_cases(r, n, corners=True):
+def gen_cases(r, n, corners=True, focus=False):
     out = []
     for i in range(n):
         corner = None
         if corners and i % 12 == 11:
             corner = CORNER_KINDS[(i // 12) % len(CORNER_KINDS)]
-        out.append(gen_case(r, corner))
+        out.append(gen_case(r, corner, focus=focus and i % 2 == 0))
     return out
+
+
+STRUCT_RE = re.compile(r'\\[1-9]|\(\?P[<=]|\(\?\(|^\(\?[aimsx]+\)')
+
+
+def stream_coverage(cases):
+    """Counts of the input classes of the widened generator (for the evidence)."""
+    from tally.modifier_parser import parse_pattern_with_modifiers, ModifierParseError
+    cov = {'files_with_adjacent_rows_sharing_outputs': 0, 'files_with_non_adjacent_rows_sharing_outputs': 0,
+           'shared_output_runs_with_backreference_named_group_conditional_or_leading_flag': 0,
+           'rows_with_backreference_named_group_conditional_or_leading_flag': 0,
+           'amount_thresholds_with_7_or_more_significant_digits': 0, 'transactions_on_a_precision_probe_of_a_threshold': 0}
+    for case in cases:
+        rows, share = case.get('rows'), case.get('share')
+        if not rows:
+            continue
+        adj = [i for i, j in enumerate(share) if j is not None and j == i - 1]
+        cov['files_with_adjacent_rows_sharing_outputs'] += bool(adj)
+        cov['files_with_non_adjacent_rows_sharing_outputs'] += any(j is not None and j != i - 1 for i, j in enumerate(share))
+        probes = set()
+        for i, row in enumerate(rows):
+            try:
+                parsed = parse_pattern_with_modifiers(row[0].strip())
+            except ModifierParseError:
+                continue
+            st = bool(STRUCT_RE.search(parsed.regex_pattern))
+            cov['rows_with_backreference_named_group_conditional_or_leading_flag'] += st
+            if st and (i in adj or i + 1 in adj):
+                cov['shared_output_runs_with_backreference_named_group_conditional_or_leading_flag'] += 1
+            for c in parsed.amount_conditions:
+                for v in (c.value, c.min_value, c.max_value):
+                    if v is not None and float('%.6g' % v) != v:
+                        cov['amount_thresholds_with_7_or_more_significant_digits'] += 1
+                        probes.update(precision_probes(v))
+        cov['transactions_on_a_precision_probe_of_a_threshold'] += case['txn']['amount'] in probes or -case['txn']['amount'] in probes
+    return cov
 
 
 def nontrivial(obs_legacy, case):
@@ -1033,6 +1239,7 @@ def run(ctx):
             patterns = [p for p in dict.fromkeys(patterns) if p and '\n' not in p]
             fixA = escape_stream(ctx, patterns)
             fixB = mods_stream(ctx, mod_items)
+            literal_value_stream(ctx, mod_items)
             evaluations += len(patterns) + len(mod_items)
             fixE = detect_fixE()
             ctx.notes['implementation_corresponds_to_model_with'] = {'fixA (D14a escaping)': fixA, 'fixB (D14b epsilon)': fixB,
@@ -1067,13 +1274,26 @@ def run(ctx):
                        'runs both real pipelines (oracle) and both model classifiers; non-trivial = the CSV rules categorise or tag the '
                        'transaction (counted on the first 400 cases)')
     ctx.notes['property_failures_by_class'] = classes
+    try:
+        sc = stream_coverage(cases)
+        ctx.notes['widened_generator_coverage'] = sc
+    except Exception as e:
+        sc = {'error': str(e)}
+    ctx.cov['rule'] += ('; ALSO: rows sharing merchant/category/subcategory/tags/modifiers with the previous row, with an earlier row, '
+                        'or exact duplicates, mostly with group-structured patterns (numbered and named groups, numbered and named '
+                        'back-references, conditional groups, leading inline flags (?i) (?s) (?m) (?a)); amount thresholds with 7+ '
+                        'significant digits (10000+ with cents, 7–20 digit integers, 5 decimals, beyond 2**53) with transactions on their '
+                        'precision probes (the value written with 3–15 significant digits / 0–3 decimals / as an integer / as a float32, '
+                        'and the midpoint); counts: ' + json.dumps(sc))
     for case in cases[len(WITNESSES):len(WITNESSES) + 3]:
         ctx.sample({'csv': render_csv(case), 'txn': jtxn(case['txn'])})
 
     def search():
         out = []
         with Scratch() as b2:
-            for case in gen_cases(r, 6000 if ctx.quick else 40000, corners=False):
+            # half of the cases from the focused classes: runs of rows sharing their outputs with group-structured patterns,
+            # many-digit thresholds with transactions on their precision probes
+            for case in gen_cases(r, 6000 if ctx.quick else 40000, corners=False, focus=True):
                 pf = oracle(case, b2)
                 if pf and not classify(pf):
                     out.append(pf)
